@@ -222,7 +222,9 @@ namespace mtbb {
     Func parallel_for_grainsize_aux(Index first,
                           Index a, Index b, Index step, Index grainsize,
                           const Func& f) {
-    if (b - a <= grainsize) {
+    /* b - a <= 1 cannot be split any further: without this test a
+       grainsize below one never reached the base case */
+    if (b - a <= grainsize || b - a <= 1) {
       f(first + a * step, first + b * step);
     } else {
       mtbb::task_group tg;
